@@ -66,3 +66,181 @@ class generic_type_name_c:
 
     def ensures(v, result, exc):
         return exc is None and isinstance(result, str)
+
+
+# ---------------------------------------------------------------- constructors
+
+def _opt(x, dflt):
+    if x is None:
+        return dflt
+    return x
+
+
+@contract(M + 'Integer.__init__', properties=['C08'])
+class Integer_init:
+    params = {'self': Obj(bv.Integer, proper=True, fresh=True), 'min_value': AnyVal(), 'max_value': AnyVal()}
+
+    def expected(self, min_value, max_value):
+        if S.int_params_ok(self, min_value, max_value):
+            return Ret(None)
+        return Raise(AssertionError)
+
+    def ensures(self, min_value, max_value, result, exc):
+        return exc is not None or (
+            self.minimum == _opt(min_value, self.default_minimum)
+            and self.maximum == _opt(max_value, self.default_maximum)
+            and S.wf(self))
+
+    def gen(rng):
+        cls = rng.choice(G.INT_CLASSES)
+        pool = [None, None, 0, 1, -1, True, cls.default_minimum, cls.default_minimum - 1, cls.default_maximum,
+                cls.default_maximum + 1, 1.0, '1', 5]
+        from pyvc import native as N
+        return {'self': {'k': 'obj', 'cls': cls.__module__ + ':' + cls.__qualname__, 'slots': {}, 'id': 1},
+                'min_value': N.describe(rng.choice(pool)), 'max_value': N.describe(rng.choice(pool))}
+
+
+def _self_desc(cls):
+    return {'k': 'obj', 'cls': cls.__module__ + ':' + cls.__qualname__, 'slots': {}, 'id': 1}
+
+
+def _pick(rng, pool):
+    from pyvc import native as N
+    return N.describe(rng.choice(pool))
+
+
+@contract(M + 'Real.__init__', properties=['C08'])
+class Real_init:
+    params = {'self': Obj(bv.Real, proper=True, fresh=True), 'min_value': AnyVal(), 'max_value': AnyVal()}
+
+    def expected(self, min_value, max_value):
+        if S.real_params_ok(self, min_value, max_value):
+            return Ret(None)
+        return Raise(AssertionError)
+
+    def ensures(self, min_value, max_value, result, exc):
+        return exc is not None or (
+            ((min_value is None and self.minimum == self.default_minimum)
+             or (min_value is not None and isinstance(self.minimum, float)
+                 and S.same_float(self.minimum, S.as_float(min_value))))
+            and ((max_value is None and self.maximum == self.default_maximum)
+                 or (max_value is not None and isinstance(self.maximum, float)
+                     and S.same_float(self.maximum, S.as_float(max_value)))))
+
+    def gen(rng):
+        cls = rng.choice([bv.Float32, bv.Float64])
+        pool = [None, None, 0, 1, -1, True, 1.5, -1.5, 3.40282e38, 3.4028200000000004e+38, -3.40282e38,
+                -3.4028200000000004e+38, 1e300, 10 ** 400, -10 ** 400, '1', float('nan'), float('inf')]
+        return {'self': _self_desc(cls), 'min_value': _pick(rng, pool), 'max_value': _pick(rng, pool)}
+
+
+@contract(M + 'String.__init__', properties=['C08'])
+class String_init:
+    params = {'self': Obj(bv.String, fresh=True), 'min_length': AnyVal(), 'max_length': AnyVal(),
+              'pattern': AnyVal()}
+
+    def expected(self, min_length, max_length, pattern):
+        if S.string_params_ok(min_length, max_length, pattern):
+            return Ret(None)
+        return Raise(AssertionError)
+
+    def ensures(self, min_length, max_length, pattern, result, exc):
+        return exc is not None or (
+            self.min_length is min_length and self.max_length is max_length and self.pattern is pattern
+            and S.wf(self))
+
+    def gen(rng):
+        pool = [None, None, 0, 1, 2, 3, -1, True, 1.0, 'a']
+        pats = [None, None, '', 'a', 'a*', '(', '[', 'a|b', 3, b'a']
+        return {'self': _self_desc(bv.String), 'min_length': _pick(rng, pool), 'max_length': _pick(rng, pool),
+                'pattern': _pick(rng, pats)}
+
+
+@contract(M + 'Bytes.__init__', properties=['C08'])
+class Bytes_init:
+    params = {'self': Obj(bv.Bytes, fresh=True), 'min_length': AnyVal(), 'max_length': AnyVal()}
+
+    def expected(self, min_length, max_length):
+        if S.length_params_ok(min_length, max_length):
+            return Ret(None)
+        return Raise(AssertionError)
+
+    def ensures(self, min_length, max_length, result, exc):
+        return exc is not None or (
+            self.min_length is min_length and self.max_length is max_length and S.wf(self))
+
+    def gen(rng):
+        pool = [None, None, 0, 1, 2, 3, -1, True, 1.0, 'a']
+        return {'self': _self_desc(bv.Bytes), 'min_length': _pick(rng, pool), 'max_length': _pick(rng, pool)}
+
+
+@contract(M + 'Timestamp.__init__', properties=['C08'])
+class Timestamp_init:
+    params = {'self': Obj(bv.Timestamp, fresh=True), 'fmt': AnyVal()}
+
+    def expected(self, fmt):
+        if isinstance(fmt, str):
+            return Ret(None)
+        return Raise(AssertionError)
+
+    def ensures(self, fmt, result, exc):
+        return exc is not None or (self.format is fmt and S.wf(self))
+
+    def gen(rng):
+        return {'self': _self_desc(bv.Timestamp), 'fmt': _pick(rng, ['%Y', '', None, 3, b'%Y'])}
+
+
+@contract(M + 'List.__init__', properties=['C08'])
+class List_init:
+    params = {'self': Obj(bv.List, fresh=True), 'item_validator': AnyVal(), 'min_items': AnyVal(),
+              'max_items': AnyVal()}
+
+    def expected(self, item_validator, min_items, max_items):
+        if S.length_params_ok(min_items, max_items):
+            return Ret(None)
+        return Raise(AssertionError)
+
+    def ensures(self, item_validator, min_items, max_items, result, exc):
+        return exc is not None or (
+            self.item_validator is item_validator and self.min_items is min_items
+            and self.max_items is max_items and S.wf_list_params(self))
+
+    def gen(rng):
+        pool = [None, None, 0, 1, 2, 3, -1, True, 1.0, 'a']
+        from pyvc import native as N
+        return {'self': _self_desc(bv.List), 'item_validator': N.describe(G.gen_validator(rng, 1)),
+                'min_items': _pick(rng, pool), 'max_items': _pick(rng, pool)}
+
+
+@contract(M + 'Map.__init__', properties=['C08'])
+class Map_init:
+    params = {'self': Obj(bv.Map, fresh=True), 'key_validator': AnyVal(), 'value_validator': AnyVal()}
+
+    def expected(self, key_validator, value_validator):
+        return Ret(None)
+
+    def ensures(self, key_validator, value_validator, result, exc):
+        return exc is None and self.key_validator is key_validator and self.value_validator is value_validator
+
+    def gen(rng):
+        from pyvc import native as N
+        return {'self': _self_desc(bv.Map), 'key_validator': N.describe(bv.String()),
+                'value_validator': N.describe(G.gen_validator(rng, 1))}
+
+
+@contract(M + 'Nullable.__init__', properties=['C08'])
+class Nullable_init:
+    params = {'self': Obj(bv.Nullable, fresh=True), 'validator': AnyVal()}
+
+    def expected(self, validator):
+        if S.nullable_param_ok(validator):
+            return Ret(None)
+        return Raise(AssertionError)
+
+    def ensures(self, validator, result, exc):
+        return exc is not None or self.validator is validator
+
+    def gen(rng):
+        from pyvc import native as N
+        v = rng.choice([G.gen_validator(rng, 1), None, 3, bv.Void(), bv.Nullable(bv.String())])
+        return {'self': _self_desc(bv.Nullable), 'validator': N.describe(v)}
